@@ -142,12 +142,11 @@ func (c *Cache) removed(src string) bool {
 
 // Copy duplicate a file or directory
 func (c *Cache) Copy(src, dest string) error {
-	var srcFS filesystem.Filespace
-	srcFS, src = c.srcFS(src)
+	src = varutil.CleanPath(src)
 	dest = varutil.CleanPath(dest)
 	c.changeWrite(dest, true)
 	return (fshelper.Copier{
-		SrcFS:    srcFS,
+		SrcFS:    c,
 		SrcPath:  src,
 		DestFS:   c.bufferFS,
 		DestPath: dest,
